@@ -20,7 +20,14 @@ import (
 	"verifharness/model"
 )
 
-func TestMain(m *testing.M) { ev.Main(m) }
+func TestMain(m *testing.M) {
+	code := m.Run()
+	ev.Dump()
+	if reuseDir != "" {
+		_ = os.RemoveAll(reuseDir)
+	}
+	os.Exit(code)
+}
 
 func genShape(t *rapid.T, w *chain.World, yields bool) (*chain.Program, *chain.PModel) {
 	opts := model.Options{NotAllowed: rapid.Bool().Draw(t, "handle405"), Fallback: rapid.IntRange(0, 3).Draw(t, "fallback") == 0}
@@ -328,7 +335,9 @@ func propRaceCache(t *rapid.T) {
 		t.Fatalf("%s", msg)
 	default:
 	}
-	ev.NonTrivial(fmt.Sprint("cache", capacity, qs, ng, per), func() string { return fmt.Sprintf("cache capacity %d, paths %v, %d goroutines x %d", capacity, qs, ng, per) })
+	ev.NonTrivial(fmt.Sprint("cache", capacity, qs, ng, per), func() string {
+		return fmt.Sprintf("cache capacity %d, paths %v, %d goroutines x %d", capacity, qs, ng, per)
+	})
 }
 
 func TestRaceCache(t *testing.T) { rapid.Check(t, propRaceCache) }
@@ -429,7 +438,80 @@ func propRaceCopy(t *rapid.T) {
 		t.Fatalf("%s", msg)
 	default:
 	}
-	ev.NonTrivial(fmt.Sprint("copy", ng, rounds), func() string { return fmt.Sprintf("%d clients x %d requests, each hands a copy to a goroutine", ng, rounds) })
+	ev.NonTrivial(fmt.Sprint("copy", ng, rounds), func() string {
+		return fmt.Sprintf("%d clients x %d requests, each hands a copy to a goroutine", ng, rounds)
+	})
 }
 
 func TestRaceCopy(t *testing.T) { rapid.Check(t, propRaceCopy) }
+
+var (
+	reuseOnce sync.Once
+	reuseDir  string
+)
+
+// propRaceRequestValue: one *http.Request value handed to ServeHTTP by several goroutines at once (a proxy that fans a
+// request out, a test that reuses its request) - for routes whose handlers only read it: a dynamic route and the
+// StaticDir / StaticFS mounts, which work on a copy.  Every serving answers like the first one, the request's URL
+// is untouched afterwards, and nothing races.
+func propRaceRequestValue(t *rapid.T) {
+	ev.Case()
+	reuseOnce.Do(func() {
+		base := os.Getenv("VERIF_SANDBOX")
+		if base == "" {
+			base = os.TempDir()
+		}
+		_ = os.MkdirAll(base, 0o755)
+		reuseDir, _ = os.MkdirTemp(base, "c03-static-")
+		_ = os.MkdirAll(reuseDir+"/sub", 0o755)
+		_ = os.WriteFile(reuseDir+"/sub/a.txt", []byte("FILE-A"), 0o644)
+	})
+	r := rux.New()
+	r.GET("/users/{id}", func(c *rux.Context) { c.WriteString("user:" + c.Param("id")) })
+	r.StaticDir("/dir", reuseDir)
+	r.StaticFS("/fs", http.Dir(reuseDir))
+	q := rapid.SampledFrom([]struct{ path, want string }{{"/users/7", "user:7"}, {"/dir/sub/a.txt", "FILE-A"}, {"/fs/sub/a.txt", "FILE-A"}}).Draw(t, "request")
+	ng := rapid.IntRange(2, 6).Draw(t, "goroutines")
+	per := rapid.IntRange(5, ev.Pick(40, 200)).Draw(t, "servingsPerGoroutine")
+	if f := os.Getenv("VERIF_CASEFILE"); f != "" {
+		b, _ := json.Marshal(map[string]any{"test": "TestRaceRequestValue", "path": q.path, "goroutines": ng, "per_goroutine": per,
+			"rapid_seed": os.Getenv("VERIF_RAPID_SEED"), "rapid_checks": os.Getenv("VERIF_RAPID_CHECKS")})
+		_ = os.WriteFile(f, b, 0o644)
+	}
+	req := httptest.NewRequest("GET", q.path, nil)
+	var wg sync.WaitGroup
+	bad := make(chan string, ng)
+	for g := 0; g < ng; g++ {
+		wg.Add(1)
+		go func() {
+			defer wg.Done()
+			for k := 0; k < per; k++ {
+				rec := httptest.NewRecorder()
+				r.ServeHTTP(rec, req)
+				if rec.Code != 200 || rec.Body.String() != q.want {
+					select {
+					case bad <- fmt.Sprintf("GET %s served from one request value by %d goroutines answered %d %q, want 200 %q", q.path, ng, rec.Code, rec.Body.String(), q.want):
+					default:
+					}
+					return
+				}
+			}
+		}()
+	}
+	wg.Wait()
+	ev.Eval()
+	select {
+	case msg := <-bad:
+		t.Fatalf("%s", msg)
+	default:
+	}
+	if req.URL.Path != q.path {
+		t.Fatalf("serving changed the caller's request: URL.Path is %q, was %q", req.URL.Path, q.path)
+	}
+	ev.ClassN("servings-of-one-request-value", ng*per)
+	ev.NonTrivial(fmt.Sprint("reuse", q.path, ng, per), func() string {
+		return fmt.Sprintf("%s: %d goroutines x %d servings of one request value", q.path, ng, per)
+	})
+}
+
+func TestRaceRequestValue(t *testing.T) { rapid.Check(t, propRaceRequestValue) }
